@@ -116,7 +116,7 @@ fn show<P: Property>(p: &P, seed: &u64, index: &u64) -> i32 {
 
 fn usage() -> i32 {
     eprintln!(
-        "usage:\n  egsim check <property> [--tier quick|thorough] [--seed N] [--runs N] [--threads N] [--dump-hashes FILE] [--no-evidence]\n  egsim replay <file>\n  egsim show <property> <run index> [seed]\n  egsim list"
+        "usage:\n  egsim check <property> [--tier quick|thorough] [--seed N] [--runs N] [--threads N] [--dump-hashes FILE] [--no-evidence]\n  egsim replay <file>\n  egsim show <property> <run index> [seed] [quick|thorough]\n  egsim list"
     );
     EXIT_HARNESS
 }
@@ -202,6 +202,7 @@ fn real_main(args: &[String]) -> i32 {
                 }
                 i += 1;
             }
+            prop::set_deep(tier == Tier::Thorough);
             let cfg = BatchCfg {
                 tier,
                 master_seed: seed,
@@ -220,6 +221,7 @@ fn real_main(args: &[String]) -> i32 {
             let id = args[1].as_str();
             let index: u64 = args[2].parse().unwrap_or(0);
             let seed: u64 = args.get(3).and_then(|s| s.parse().ok()).unwrap_or(DEFAULT_SEED);
+            prop::set_deep(args.get(4).map(|s| s.as_str()) == Some("thorough"));
             dispatch!(id, show, &seed, &index)
         }
         "replay" => {
@@ -242,6 +244,7 @@ fn real_main(args: &[String]) -> i32 {
                 }
             };
             let id = j.get("property").and_then(|p| p.as_str()).unwrap_or("").to_string();
+            prop::set_deep(j.get("tier").and_then(|t| t.as_str()) == Some("thorough"));
             dispatch!(id.as_str(), replay, &j, path)
         }
         _ => usage(),
